@@ -231,7 +231,8 @@ func (c *Check) workListsTerminate() {
 					}
 				}
 			}
-			if len(pops) == 0 || len(apps) == 0 {
+			_ = pops // the list may be consumed by re-slicing or through a cursor that runs up to len(list)
+			if len(apps) == 0 {
 				continue
 			}
 			for _, ap := range apps {
